@@ -12,6 +12,7 @@ import (
 	"os"
 	"sort"
 	"strings"
+	"sync/atomic"
 	"time"
 
 	"github.com/usnistgov/dastard"
@@ -371,7 +372,20 @@ type rpcOutcome struct {
 func runRpc(c Case, limit time.Duration) rpcOutcome {
 	var out rpcOutcome
 	dastard.VerifC10Setup()
-	dastard.VerifSetPointHook(nil)
+	// the only steering in this mode: when armed, the core loop's teardown (between the end of its loop and
+	// RunDoneDeactivate) takes 80 ms, and the harness is told when it begins
+	var slowTeardown atomic.Bool
+	teardown := make(chan struct{}, 16)
+	dastard.VerifSetPointHook(func(name string) {
+		if name == "core:before-return" && slowTeardown.Load() {
+			select {
+			case teardown <- struct{}{}:
+			default:
+			}
+			time.Sleep(80 * time.Millisecond)
+		}
+	})
+	defer dastard.VerifSetPointHook(nil)
 	sc := dastard.VerifC11NewSourceControl(4, 16)
 	var okb bool
 	sc.ConfigureTriangleSource(&dastard.TriangleSourceConfig{Nchan: 2, SampleRate: 10000, Min: 100, Max: 110}, &okb)
@@ -404,18 +418,31 @@ func runRpc(c Case, limit time.Duration) rpcOutcome {
 			return "", false
 		}
 	}
-	for _, o := range c.Rpc {
+	for i, o := range c.Rpc {
 		var cls string
 		ok := true
 		switch {
 		case strings.HasPrefix(o, "start:"):
 			name := map[string]string{"triangle": "TRIANGLESOURCE", "simpulse": "SIMPULSESOURCE", "erroring": "ERRORINGSOURCE",
 				"lancero": "LANCEROSOURCE", "lancero-ar": "LANCEROSOURCE"}[o[6:]]
+			// a slow teardown only when the next operation is a request meant for that window
+			slowTeardown.Store(i+1 < len(c.Rpc) && c.Rpc[i+1] == "req-teardown")
 			if !sc.VerifIsSourceActive() {
 				ls.VerifC10SetAutoRestart(o == "start:lancero-ar")
 			}
 			cls, ok = call(func() error { return sc.Start(&name, &okb) })
-		case o == "req":
+		case o == "req-teardown" && sc.VerifActiveKind() == "erroring" && sc.VerifIsSourceActive():
+			// the request arrives while the source, which has ended its loop by itself, is still tearing down
+			// (it still reports Running()); it must be answered once the teardown is over
+			select {
+			case <-teardown:
+			case <-time.After(200 * time.Millisecond): // the loop ended before the steering was armed
+			}
+			cls, ok = call(func() error {
+				st := &dastard.FullTriggerState{ChannelIndices: []int{0}}
+				return sc.ConfigureTriggers(st, &okb)
+			})
+		case o == "req" || o == "req-teardown":
 			// a source of a self-ending kind is given the time to end first, so that the answer does not depend on timing
 			if !waitSelfEnd() {
 				ok = false
@@ -472,7 +499,7 @@ func renderRpc(c Case, out rpcOutcome, crashed bool) string {
 			ops = append(ops, "RStart RErroring")
 		case "start:lancero", "start:lancero-ar":
 			ops = append(ops, "RStart RLancero")
-		case "req":
+		case "req", "req-teardown":
 			ops = append(ops, "RReq")
 		case "selfend":
 			ops = append(ops, "RSelfEnd")
@@ -689,6 +716,8 @@ func gen(seed uint64, tier string) []interface{} {
 		{"start:lancero-ar", "stop", "start:triangle", "stop"},                  // configured to auto-restart: an operator Stop still stops it
 		{"start:lancero-ar", "req", "stop", "stop", "req", "start:lancero-ar", "stop"},
 		{"start:erroring", "req", "stop", "start:triangle", "req", "stop", "req"},
+		{"start:erroring", "req-teardown", "stop", "start:erroring", "req-teardown", "req", "start:triangle", "stop"}, // a request while the self-ended source tears down
+		{"start:erroring", "req-teardown", "start:simpulse", "req-teardown", "stop"},
 	} {
 		add(Case{Rpc: h})
 	}
@@ -769,7 +798,7 @@ func gen(seed uint64, tier string) []interface{} {
 			case x < 5:
 				h = append(h, "start:erroring")
 			case x < 6:
-				h = append(h, []string{"start:lancero", "start:lancero-ar", "req", "req"}[q.Intn(4)])
+				h = append(h, []string{"start:lancero", "start:lancero-ar", "req", "req", "req-teardown"}[q.Intn(5)])
 			case x < 7:
 				h = append(h, "selfend")
 			default:
